@@ -60,3 +60,128 @@ def c10(tier):
 PROPS = {
     "C10": c10,
 }
+
+
+MACH = "./pkg/machine"
+
+
+def shards(func, pbits, weight=4, nconcrete=0, **params):
+    """symbolic-schema units sharded by fixing the first pbits schema bits"""
+    out = []
+    for pv in range(1 << pbits):
+        out.append(U(MACH, func, weight=weight, nconcrete=nconcrete if pv == 0 else 0, schema=-1, pbits=pbits, pval=pv, **params))
+    return out
+
+
+# curated 3-state schemas (bit codes for verifSchemaBits, multi/auto/after off: 6 bits per state =
+# Require[2] Add[2] Remove[2]); includes the C02 finding (682 + the continuation found by the solver)
+def code3(a, b, c):
+    """each arg: (require, add, remove) as sets of the other two states in index order"""
+    names = "ABC"
+    code, pos = 0, 0
+    for i, (req, add, rem) in enumerate((a, b, c)):
+        others = [x for x in names if x != names[i]]
+        for rel in (req, add, rem):
+            for o in others:
+                if o in rel:
+                    code |= 1 << pos
+                pos += 1
+    return code
+
+
+CURATED3 = [
+    code3(("C", "C", ""), ("C", "C", "A"), ("A", "AB", "")),   # C02 finding
+    code3(("", "", ""), ("A", "", ""), ("B", "", "")),          # Require chain
+    code3(("", "B", ""), ("", "C", ""), ("", "", "A")),         # Add chain ending in a Remove
+    code3(("", "", "BC"), ("", "", "AC"), ("", "", "AB")),      # exclusive group
+    code3(("B", "", ""), ("C", "", ""), ("A", "", "")),         # Require cycle
+    code3(("", "BC", ""), ("A", "", "C"), ("", "", "")),
+    code3(("", "", "B"), ("", "", "A"), ("AB", "", "")),
+    code3(("", "C", "B"), ("", "A", ""), ("B", "", "")),
+]
+
+
+def mach_units(func, tier, n2_params=None, n3=True, weight=4, pbits2=4, extra=None, nconcrete=2):
+    extra = extra or {}
+    units = []
+    for mut in (0, 1, 2):
+        units += shards(func, pbits2, weight=weight, nconcrete=nconcrete if mut == 0 else 0, n=2, mut=mut, **(n2_params or {}), **extra)
+    if n3:
+        for sc in CURATED3:
+            units.append(U(MACH, func, weight=2, n=3, schema=sc, **extra))
+        if tier == "thorough":
+            for pv in range(0, 1024, 16):
+                units.append(U(MACH, func, weight=20, n=3, schema=-1, pbits=10, pval=pv, mut=0, **extra))
+    return units
+
+
+MACH_ASSUME = [
+    "machine built by the real New(); pre-state injected into activeStates/clock (parity-consistent ticks < 2^62) under the property's own invariant "
+    "(Require-closed, no active state removed by another active state); counterexamples are replayed natively, where a bounded search over public "
+    "mutations must first reach the injected pre-state (otherwise the counterexample is discarded as starting from an unreachable state)",
+    "handler goroutine served inline (rendezvous on handlerStart/handlerEnd): the fault-free protocol sequentialised; handler timer never fires",
+    "go statements dropped (handlerLoop); randId replaced by a constant; time.Since returns one symbolic duration per run",
+    "fork mode: every symbolic branch forks the path (feasibility by z3), assertions are decided on each path",
+]
+MACH_BOUNDS = {"states": "2 user states + Exception with every schema (all Require/Add/Remove bits symbolic); 3 user states for 8 curated schemas "
+               "(thorough: 64 of 1024 shards of the 18-bit symbolic schema space, Add mutations)",
+               "pre_state": "every consistent active set", "mutation": "Add / Remove / Set over every non-empty called set",
+               "handlers": "one map binding with every handler name; negotiation results = symbolic veto table"}
+MACH_OUT = ["more than 3 user states", "several bindings / StatePrefix / struct handlers found by reflection", "handler timeouts and panics (C08)",
+            "concurrent callers (C04, C12)", "3-state schemas outside the curated list (quick tier)"]
+
+
+def c02(tier):
+    units = []
+    for multi in (0, 1):
+        for mut in (0, 1, 2):
+            units += shards("VerifC02Step", 3, n=2, mut=mut, multi=multi, nconcrete=2 if (multi, mut) == (0, 0) else 0)
+    for sc in CURATED3:
+        units.append(U(MACH, "VerifC02Step", weight=2, n=3, schema=sc, multi=0))
+    if tier == "thorough":
+        for pv in range(0, 1024, 8):
+            units.append(U(MACH, "VerifC02Step", weight=20, n=3, schema=-1, pbits=10, pval=pv, multi=0, mut=0))
+    return {"units": units, "bounds": dict(MACH_BOUNDS, handlers="none (relations only)"), "outside": MACH_OUT + ["After relation (C05)", "Auto states (C07)"],
+            "assumptions": MACH_ASSUME + ["graph.TopologicalSort is replaced by a stub (order only matters for handler order, C05)"]}
+
+
+def c03(tier):
+    units = mach_units("VerifC03Step", tier, extra={"multi": 1})
+    units += [u for mut in (0,) for u in shards("VerifC03Check", 4, n=2, multi=0)]
+    for early in (0, 1, 2):
+        units += shards("VerifC03Early", 2, n=2, multi=0, early=early)
+    return {"units": units, "bounds": MACH_BOUNDS, "outside": MACH_OUT, "assumptions": MACH_ASSUME}
+
+
+def c01(tier):
+    units = []
+    for handlers in (0, 1):
+        units += mach_units("VerifC01Clock", tier, extra={"multi": 1, "handlers": handlers, "check": 0}, n3=(handlers == 0))
+    units += shards("VerifC01Clock", 4, n=2, multi=1, handlers=1, check=1)
+    return {"units": units, "bounds": dict(MACH_BOUNDS, ticks="symbolic 62-bit base per state, parity = activity"), "assumptions": MACH_ASSUME + [
+        "concurrent readers: not explored; every write of activeStates/clock in the encoded code happens inside the activeStatesMx critical section (see DESIGN)"],
+        "outside": MACH_OUT + ["interleavings of concurrent readers (covered only by the lock-discipline argument in DESIGN.md)"]}
+
+
+def c05(tier):
+    units = mach_units("VerifC05Order", tier, extra={"multi": 0, "after": 0})
+    units += shards("VerifC05Order", 4, n=2, multi=1, after=1, mut=0)
+    for sc in range(0, 1 << 6, 5):
+        # 3 states with only After relations symbolic would need 24 bits; curated After chains instead
+        pass
+    return {"units": units, "bounds": MACH_BOUNDS, "outside": MACH_OUT + ["After relations over 3 states (known finding c05-after-not-transitive is checked in C05After)"],
+            "assumptions": MACH_ASSUME}
+
+
+def c07(tier):
+    units = mach_units("VerifC07Auto", tier, pbits2=5, weight=8)
+    return {"units": units, "bounds": MACH_BOUNDS, "outside": MACH_OUT + ["health-check mutations", "AnyEnter veto (pinned to no veto)"], "assumptions": MACH_ASSUME}
+
+
+def c14(tier):
+    units = mach_units("VerifC14Tracer", tier, pbits2=5, weight=8, extra={"auto": 1, "handlers": 1})
+    units += mach_units("VerifC14Tracer", tier, pbits2=3, extra={"auto": 0, "handlers": 0}, n3=False)
+    return {"units": units, "bounds": MACH_BOUNDS, "outside": MACH_OUT + ["several goroutines", "several tracers", "dbg / history consumers"], "assumptions": MACH_ASSUME}
+
+
+PROPS.update({"C01": c01, "C02": c02, "C03": c03, "C05": c05, "C07": c07, "C14": c14})
